@@ -12,6 +12,13 @@
 //     not "reverted operations"); a root mismatch is explained by a leaf-level diff of the
 //     two account tries (and their storage tries).
 //
+// A query answer is flagged only if BOTH oracles reject it (the model says what the answer
+// was when the snapshot was taken; the differential run says what it is without the
+// reverted calls).  Emptiness and presence of an account in the trie are not notions of
+// the model (the implementation derives them from its caches): there the differential
+// oracle decides alone.  Nonce / code hash / slot differences between the two tries are
+// dropped when the history's own leaf is what the model says.
+//
 // Every history with a revert is executed twice: once ending in the full observation
 // followed by the root ("warm": the queries have filled the object caches), once ending
 // directly in the root ("cold"); the thorough tier adds IntermediateRoot(false).  ReadAll
@@ -150,12 +157,14 @@ type slice struct {
 	done     int // deepest level completely evaluated
 	okeys    []string
 	memo     map[string]*refRes
+	failKeys map[string][]string // failure keys of sub-histories already evaluated during minimisation
 	c        *fw.Ctx
 }
 
 func (s *slice) init(c *fw.Ctx) {
 	s.c = c
 	s.memo = map[string]*refRes{}
+	s.failKeys = map[string][]string{}
 	s.m0 = initModel(s.u, s.ft)
 	s.okeys = obsKeys(s.u, s.ft)
 }
@@ -730,26 +739,33 @@ func (s *slice) report(c *fw.Ctx, h []Op, res *nodeRes, minimise bool) {
 			// failure: the shorter history is enumerated (and reported) on its own.
 			minimal := true
 			stillFails := func(h2 []Op) bool {
-				r2 := s.eval(h2)
-				if r2 == nil {
-					return false
+				k2 := opsKey(h2)
+				keys, ok := s.failKeys[k2]
+				if !ok {
+					if r2 := s.eval(h2); r2 != nil {
+						for _, f2 := range r2.fails {
+							keys = append(keys, f2.key())
+						}
+					}
+					if len(s.failKeys) > 200000 {
+						s.failKeys = map[string][]string{}
+					}
+					s.failKeys[k2] = keys
 				}
-				for _, f2 := range r2.fails {
-					if f2.key() == f.key() {
+				for _, k := range keys {
+					if k == f.key() {
 						return true
 					}
 				}
 				return false
 			}
-			for i := 0; i < len(h) && minimal; i++ {
+			for i := 0; i < len(h) && minimal; i++ { // single calls first: the usual case
+				minimal = !stillFails(removeOp(h, i))
+			}
+			for i := 0; i < len(h) && minimal; i++ { // then pairs (a Snapshot with its Revert)
 				h1 := removeOp(h, i)
-				if stillFails(h1) {
-					minimal = false
-				}
-				for j := i; j < len(h1) && minimal; j++ { // also pairs (a Snapshot with its Revert)
-					if stillFails(removeOp(h1, j)) {
-						minimal = false
-					}
+				for j := i; j < len(h1) && minimal; j++ {
+					minimal = !stillFails(removeOp(h1, j))
 				}
 			}
 			if !minimal {
